@@ -29,7 +29,7 @@ def run(tier, replay_file=None):
         R.cov["transitions"] += mc.generated
     # spec -> code
     hs, _ = gen.histories("Abm", consts(3, 1, 40, 1, ops='{"Create","Delete","PlanDel","Run","RunStep"}', ahead=1), 4 if quick else 5)
-    h2, _ = gen.histories("Abm", consts(8, 10, 400, 8), 16 if quick else 30, simulate=60 if quick else 1200,
+    h2, _ = gen.histories("Abm", consts(8, 10, 400, 8), 16 if quick else 30, simulate=60 if quick else 500,
                           seed=common.seed() + 7, cache=False)
     R.cov["bfs_histories"], R.cov["sim_histories"] = len(hs), len(h2)
     # time steps with three decimals (dt = 0.125, 0.025, 0.2 ...): the specification counts in 1/1000 (Unit overridden)
